@@ -343,6 +343,10 @@ static void one_execution( const Case& c, const std::vector< int >& pre, bool ve
       {
          std::vector< int > begins;
          for( const auto& t : RI.trail ) {
+            if( t.exit == 2 ) {
+               want.push_back( { t.rule, t.b, t.pos } );
+               continue;
+            }
             if( !t.exit )
                begins.push_back( t.pos );
             else {
